@@ -1,5 +1,6 @@
 """C15 — iterator locks and entry handles: structural necessary conditions."""
 from .common import *
+from vlib.mir import path_conditions
 from vlib.callgraph import CallGraph
 from vlib.mir import block_fields
 
@@ -106,6 +107,54 @@ def run(ck):
             ck.ob("DOM", f.path, "removal-only-of-unlocked-node#%d" % n, ok,
                   "a lock-trie node is freed only %s" % ("on the branch where it holds no lock (value.is_some() is false)" if by_test else "after its own lock was cleared") if ok else
                   "node removal is not guarded by a test that the node holds no lock: deleting one iterator can release another iterator's lock", f.loc(bi))
+
+        # the same removals, and the bookkeeping around them, through the conditions under which each site is reached
+        def reached_under(g, bb):
+            """[(callee name, fields of the receiver, truth value)] for the dominating bool switches with a single edge to bb"""
+            out = []
+            for (sb, val) in path_conditions(g, bb):
+                st = g.term(sb)
+                o = g.origins(st["d"])
+                od = g.origins(st["d"], deep=True)
+                truth = (val != "0")
+                neg = sum(1 for a in o if a[0] == "un" and a[1] == "Not") % 2 == 1
+                for a in o:
+                    if a[0] == "call":
+                        out.append((a[1].split("::")[-1], frozenset(x[1] for x in od if x[0] == "field"), truth != neg))
+                for cx in rules.comparisons(g):
+                    br = rules.cmp_branches(g, cx)
+                    if br and br[0] == sb:
+                        oo = g.origins(cx["a"], deep=True) | g.origins(cx["b"], deep=True)
+                        side = True if br[1] in ([tb for v, tb in st["t"] if v == val] + ([st["o"]] if val == "otherwise" else [])) else False
+                        out.append(("cmp:" + cx["op"], frozenset([x[1] for x in oo if x[0] == "field"] + ["lit%s" % x[1] for x in oo if x[0] == "lit"] + [x[1].split("::")[-1] for x in oo if x[0] == "call"]), side))
+            return out
+        for n, (bi, t) in enumerate(rem):
+            if bi not in f.reach_from(f.succ(bi)):
+                continue
+            cond = reached_under(f, bi)
+            ok = any(c[0] == "is_empty" and "children" in c[1] and c[2] for c in cond) and any(c[0] == "is_some" and "value" in c[1] and not c[2] for c in cond)
+            ck.ob("DOM", f.path, "ancestor-removed-only-if-empty-and-unlocked#%d" % n, ok,
+                  "an ancestor lock-trie node is freed only when it has no children left and holds no lock" if ok else
+                  "the back-up loop frees an ancestor under %s: a node that still has children (locks below it) or a lock of its own can be freed" % [(c[0], c[2]) for c in cond], f.loc(bi))
+        nz = f.calls(r"NonZero[A-Za-z0-9<>:]*::new_unchecked$")
+        ck.ob("DOM", f.path, "sites:count-decrement", len(nz) == 1, "%d reference-count updates" % len(nz), f.loc(), nontrivial=False)
+        for (bi, t) in nz:
+            o = f.origins(t["args"][0], deep=True)
+            dec = any(a[0] == "bin" and a[1].startswith("Sub") for a in o) and ("lit", 1) in o and has_call_origin(o, r"::get$")
+            cond = reached_under(f, bi)
+            grd = any(c[0] == "cmp:Gt" and "lit1" in c[1] and "get" in c[1] and c[2] for c in cond) or any(c[0] == "cmp:Ge" and "lit2" in c[1] and "get" in c[1] and c[2] for c in cond)
+            ck.ob("DOM", f.path, "count-decremented-by-one-while-above-one", dec and grd,
+                  "the lock count becomes count - 1 only when count > 1 (otherwise the lock is removed)" if dec and grd else
+                  "the lock count update is not `count - 1 under count > 1` (decrement: %s, guard: %s): a lock is never released, or the count reaches 0 inside a NonZeroU32" % (dec, [(c[0], c[2]) for c in cond]), f.loc(bi))
+        rootclr = [bi for bi in f.reachable() for s2 in f.stmts(bi) if "lhs" in s2 and s2["lhs"][1] and str(s2["lhs"][1][-1]).endswith(":root") and
+                   ((s2["rv"].get("k") == "agg" and s2["rv"].get("variant") == "None") or
+                    (s2["rv"].get("k") == "use" and any(a[0] == "agg" and a[1].endswith("Option::None") for a in f.origins(s2["rv"]["a"]))))]
+        for bi in rootclr:
+            cond = reached_under(f, bi)
+            ok = any(c[0] == "contains" and not c[2] for c in cond)
+            ck.ob("DOM", f.path, "root-cleared-only-when-removed", ok, "self.root = None only when the root node is no longer in the slab" if ok else
+                  "the root pointer is cleared under %s: all remaining locks are forgotten while their nodes exist" % [(c[0], c[2]) for c in cond], f.loc(bi))
+        ck.ob("DOM", f.path, "sites:root-clear", len(rootclr) == 1, "%d assignments root = None" % len(rootclr), f.loc(), nontrivial=False)
 
     # stale handles
     IS = E + "::v1::types::InstanceState::<'a, BackingStore>::"
